@@ -7,7 +7,7 @@
    (2) lcase: a string literal found by the source scan in a name position, with its kind: the table `reserved` (or
        `not_names`) must know it; and every entry of `reserved` must still be found.
    (3) qcase: the view names of one generated WITH query and the user tables it reads: every view name has a reserved
-       form, and a user table is captured exactly when the model's name resolution says so. *)
+       form, and a user table is observed to be captured only when the model's name resolution says so. *)
 From Coq Require Import List Bool Arith String Ascii.
 Import ListNotations.
 From DA Require Import Base.PyRT Base.Cases Base.PyStr Model.ScratchNames.
@@ -48,9 +48,11 @@ Definition check_reserved_found (found : list (rkind * string)) : list nat :=
 
 Record qcase := mkqc { qc_ctes : list string; qc_tables : list string; qc_captured : bool }.
 Definition qcase_query (c : qcase) : wquery := mkwq (qc_ctes c) (map RTable (qc_tables c) ++ map RView (qc_ctes c)).
+(* one-sided: an observed change must be predicted; a predicted capture may stay invisible (the shadowing view can happen to
+   hold the same rows as the table it hides) *)
 Definition qcase_ok (c : qcase) : bool :=
   forallb (is_reserved STable) (qc_ctes c)
-  && Bool.eqb (match captured_refs (qcase_query c) with [] => false | _ => true end) (qc_captured c).
+  && implb (qc_captured c) (match captured_refs (qcase_query c) with [] => false | _ => true end).
 Definition check_qcases (cs : list qcase) : list nat := failing_idx qcase_ok cs.
 
 (* name cases: the harness's pool tags every name it draws with the class it believes the name collides with *)
